@@ -63,6 +63,35 @@ CLAIMS['C02'] = ('other',
     'Trusted: PLY (lexer rule order, yacc driver), re; the value type of importPart (dict merge loop) is assumed. '
     'Productions that by design have no tree representation are listed in NOT_REPRESENTED (contract: value None).',
     '5 C02')
+HANDLER_NOTE = ('Trusted: CPython str/int/replace/split/join (uninterpreted with the facts listed in the evidence), '
+                'the PLY driver, Jinja2 rendering of the JSON template (tojson). The dynamic dispatch prepData -> handler '
+                '(handlersTable[tag]) is not under a machine-checked composition lemma: handler preconditions restate the '
+                'value types of the grammar contracts (C02) by hand. Symbolically indexed dicts are unordered in the engine, so '
+                'member order inside a record is not decided.')
+CLAIMS['C01'] = ('proof',
+    'The OID chain is a composition of contracts: grammar actions keep sub-identifiers as written (C02 contracts), '
+    'SymtableCodeGen.genOid / regSym / regPostponedSyms (saturation: no postponed symbol is ready, hence independence of '
+    'declaration order), IntermediateCodeGen.genNumericOid proved equal to the specification function Resolve (defining '
+    'equations: number, iso, (name, module) -> resolved OID of that symbol) for tables and OIDs of any size, genOid '
+    '(symbolic form elementwise, dotted rendering of Resolve), the eleven clause handlers (oid member), genTrapType '
+    '(<enterprise>.0.<n>), regSym (module OID summary).',
+    HANDLER_NOTE + ' Termination of genNumericOid on cyclic tables is not decided (partial correctness; finding D12).', '5 C01')
+CLAIMS['C03'] = ('proof',
+    'Each of the eleven clause handlers of IntermediateCodeGen has a contract: the record is registered under the '
+    'translated name, carries class / oid / exactly the optional members that are declared (and requested, for texts), '
+    'leaves every other record untouched; regSym rejects duplicates; symbol-table registration accounts for every '
+    'declaration (registered or postponed, never lost).', HANDLER_NOTE, '5 C03')
+CLAIMS['C06'] = ('proof',
+    'Grammar actions for index / objects / compliance lists (order preserving list contracts, D14 fixed), '
+    'genObjectType (nodetype classification, indices, augmention), genTableIndex (order, IMPLIED flag, module), '
+    'genObjects and the notification / group / trap handlers (same length, same order, import-map attribution), '
+    'genCompliances (concatenation over MODULE parts via the specification function FLAT).',
+    HANDLER_NOTE + ' Known finding D16 (hyphenated imported index attributed to the local module).', '5 C06')
+CLAIMS['C15'] = ('other',
+    'p_Text strips exactly the quotes; every text handler returns textFilter(kind, source) exactly once; every clause '
+    'handler emits description / reference / organization / contact-info iff text generation is on and the source text is '
+    'non-empty, and emits them unchanged. The pysnmp clause (string literals produced by the Jinja2 template) is not decided, '
+    'hence level other.', HANDLER_NOTE + ' Known finding D26 (DISPLAY-HINT and PRODUCT-RELEASE bypass the filter).', '5 C15')
 NOT_YET = {
 }
 
